@@ -1,9 +1,27 @@
-//! STUB component for spcr -- to be written
+//! component 28: SPCR.  Case vocabulary documented in coq/theories/Spec/SpcrS.v.
 use crate::sx::*;
+use crate::tcommon::*;
 use crate::Emit;
+use acpi_tables::spcr::SPCR;
 
-pub fn run(_case: &Sx, _out: &mut Vec<Ev>) {
-    panic!("harness: component spcr not implemented")
+pub fn run(case: &Sx, out: &mut Vec<Ev>) {
+    let c = case.list();
+    let ctor = c[0].list();
+    let (oem, tbl, rev) = hdr_args(ctor);
+    let t = SPCR::sbi(oem, tbl, rev);
+    for op in &c[1..] {
+        if let Sx::A(_) = op {
+            out.push(image(&t));
+            continue;
+        }
+        panic!("harness: SPCR has no operation");
+    }
 }
 
-pub fn gen(_tier: &str, _rng: &mut Rng, _emit: &mut Emit) {}
+pub fn gen(tier: &str, rng: &mut Rng, emit: &mut Emit) {
+    let n = if tier == "thorough" { 1000 } else { 100 };
+    for _ in 0..n {
+        let c = l(rand_hdr(rng));
+        emit.case(28, history(rng, c, vec![]));
+    }
+}
